@@ -2307,6 +2307,10 @@ class Interp:
                         out_.append(x)
                 return ("list", out_)
             if items is not None:
+                if name == "tuple":
+                    if all(x[0] == "c" and _hashable(x[1]) for x in items):
+                        return ("c", tuple(x[1] for x in items))      # a tuple of constants is a constant
+                    return ("list", items, False, "tuple")
                 return ("list", items)
             if a0[0] in ("list", "many"):
                 return a0
